@@ -170,7 +170,40 @@ def longrange():
                      eval_cells=[C1, C2, S + 'A1', S + 'A%d' % n, B1])
 
 
-ALL = [chain, diamond, sumrange, formularange, crosssheet, textmodel, named]
+def branch():
+    """A lazily selected branch: which of two formula cells feeds the result
+    depends on an input."""
+    A1, A2, B1, B2, C1, D1 = (S + x for x in
+                              ('A1', 'A2', 'B1', 'B2', 'C1', 'D1'))
+    return ModelSpec(
+        'branch',
+        {A1: 5, A2: 2, B1: '=A2*2', B2: '=A2+100', C1: '=IF(A1>3,B1,B2)',
+         D1: '=C1+1'},
+        [A1, A2], [0, 5],
+        {B1: lambda g: g(A2) * 2, B2: lambda g: g(A2) + 100,
+         C1: lambda g: g(B1) if g(A1) > 3 else g(B2),
+         D1: lambda g: g(C1) + 1})
+
+
+def lookup():
+    """A lookup whose key is an input."""
+    cells = {S + 'A1': 0, S + 'B1': 10, S + 'A2': 5, S + 'B2': 20,
+             S + 'A3': 7, S + 'B3': 30, S + 'D1': 5}
+    D1, E1, F1 = S + 'D1', S + 'E1', S + 'F1'
+    cells[E1] = '=VLOOKUP(D1,A1:B3,2,FALSE)'
+    cells[F1] = '=E1+MATCH(D1,A1:A3,0)'
+    table = {0: 10, 5: 20, 7: 30}
+    pos = {0: 1, 5: 2, 7: 3}
+    return ModelSpec(
+        'lookup', cells, [D1, S + 'B2'], [0, 5],
+        {E1: lambda g: {0: g(S + 'B1'), 5: g(S + 'B2'), 7: g(S + 'B3')}[
+            g(D1)],
+         F1: lambda g: g(E1) + pos[g(D1)]},
+        eval_cells=[D1, E1, F1, S + 'B2'])
+
+
+ALL = [chain, diamond, sumrange, formularange, crosssheet, textmodel, named,
+       branch, lookup]
 ALL_C05 = ALL + [twodim, longrange]
 
 
